@@ -150,6 +150,7 @@ Definition demanded_at (r : ptree) (qv : path * option ptree) : bool :=
 Definition verdict_allows (v : verdict) (obs : res ptree) : bool :=
   match v, obs with
   | VUnspecified, _ => true
+  | VMustFail, Err (Exit 0) => false            (* exit status 0 is not an error *)
   | VMustFail, Err _ => true
   | VMustFail, Ok _ => false
   | VLeaves l, Ok r => forallb (demanded_at r) l
